@@ -322,7 +322,7 @@ def run_pinned(asm, acc, case):
 # labels whose spelling Python would read as something about a *constant* of the program (an attribute of it, its NFKC twin): the label is
 # what the line names (F44), also for the pass that decides what may be compressed
 PY_PAIRS = [('SCALE', 'SCALE.numerator'), ('N', 'N.real'), ('no', 'n\u00ba'), ('A', '\uff21'), ('K', 'K.imag'), ('tab', 'tab.denominator'), ('fix', '\ufb01x'),
-            ('BASE', 'BASE.real')]
+            ('BASE', 'BASE.real'), ('DEBUG', '__debug__')]         # (`__debug__` is a name Python evaluates without looking it up)
 PY_SHAPES = [
     ['lw a0, {L}(s1)', 'slli a0, a0, 2', 'ret', '{L}:', 'dw 3'],
     ['align 0x800', '{L}:', 'li s0, {L}'],
@@ -361,9 +361,98 @@ def run_pyname(asm, acc, case):
             case, {'lines': [l[:60] for l in lines]})
 
 
+# instructions whose operand sits on an edge of an RVC operand set, the operand written as a derived quantity (`ROM_BASE >> 12`, `SIZE - 1`,
+# `FLAGS ^ 8`): whatever the compression pass does with the operand text, the program still assembles
+def spelled_program(rng):
+    from ..gen import exprs
+    near = lambda xs: rng.choice(xs) + rng.choice([0, 0, 0, 1, -1])       # noqa
+    lines = []
+    for _ in range(rng.randint(3, 8)):
+        k = rng.randrange(11)
+        r8 = 'x%d' % rng.randrange(8, 16)
+        rd = 'x%d' % rng.choice([1, 3, 5, 8, 9, 15, 31])
+        if k == 0:
+            v = rng.choice([1, 2, 31, 32, 33, 0x1f, 0xfffe0, 0xfffe1, 0xfffff, 0xfffdf, 0xffffe, 0x80000, 0x7ffff, 0x12345])
+            m, ops, v = 'lui', [rd], v
+        elif k == 1:
+            v = max(-2048, min(2047, near([-33, -32, -1, 1, 31, 32, 2047, -2048])))
+            m, ops = 'addi', [rd, rd]
+        elif k == 2:
+            v = max(-2048, min(2047, near([-33, -32, 0, 31, 32])))
+            m, ops = 'addi', [rd, 'x0']
+        elif k == 3:
+            v = max(-2048, min(2047, rng.choice([-528, -512, -16, 16, 496, 512, 8, 2032])))
+            m, ops = 'addi', ['x2', 'x2']
+        elif k == 4:
+            v = rng.choice([4, 8, 1020, 1024, 1016, 2, 0, 512])
+            m, ops = 'addi', [r8, 'x2']
+        elif k == 5:
+            v = max(-2048, min(2047, near([-33, -32, 0, 31, 32])))
+            m, ops = 'andi', [r8, r8]
+        elif k == 6:
+            v = rng.choice([1, 2, 15, 16, 30, 31])
+            m, ops = rng.choice(['slli', 'srli', 'srai']), [r8, r8]
+        elif k == 7:
+            v = rng.choice([0, 4, 64, 120, 124, 128, 2, 2044])
+            m, ops = rng.choice(['lw', 'sw']), [r8, 'x%d' % rng.randrange(8, 16)]
+        elif k == 8:
+            v = rng.choice([0, 4, 128, 248, 252, 256, 2044])
+            m, ops = 'lw', [rd, 'x2']
+        elif k == 9:
+            v = rng.choice([0, 4, 128, 248, 252, 256, 2044])
+            m, ops = 'sw', ['x2', rd]
+        else:
+            lines.append(rng.choice(['nop', 'c.nop', 'add x8, x8, x9', 'db 1', 'db 2', 'mv x5, x6']))
+            continue
+        if k == 6:
+            # (a shift amount is a number or a name, not an expression)
+            name = 'SH%d' % len(lines)
+            named = rng.random() < 0.5
+            if named:
+                lines.insert(0, '%s = %s' % (name, exprs.spell_value(rng, v)))
+            lines.append('%s %s, %s' % (m, ', '.join(ops), name if named else str(v)))
+            continue
+        txt = exprs.spell_value(rng, v)
+        if rng.random() < 0.4:
+            name = 'Q%d' % len(lines)
+            half = rng.randrange(0, 8)
+            lines.insert(0, '%s = %d' % (name, (v << half) if v >= 0 else v))
+            txt = ('%s >> %d' % (name, half)) if v >= 0 else rng.choice(['%s | 0' % name, '%s + 0' % name, '0 ^ %s' % name])
+        lines.append('%s %s, %s' % (m, ', '.join(ops), txt))
+    return lines
+
+
+def run_spelled(asm, acc, case):
+    rng = random.Random('c12-spelled-%d-%d' % (case['seed'], case['idx']))
+    lines = spelled_program(rng)
+    src = '\n'.join(lines) + '\n'
+    acc['n'] += 1
+    u = monitors.observe(asm, src, False, tap=False)
+    if not u.ok:
+        acc['ctr']['refused_uncompressed'] += 1
+        acc['ctr']['spelled_refused_uncompressed'] += 1
+        return
+    acc['ctr']['accepted_uncompressed'] += 1
+    acc['ntkeys'].add(core.ckey(src))
+    c = monitors.observe(asm, src, True, tap=False)
+    if c.ok:
+        acc['ctr']['accepted_both'] += 1
+        if len(c.out) < len(u.out):
+            acc['ctr']['compression_happened'] += 1
+            acc['ctr']['spelled_programs_that_shrank'] += 1
+    else:
+        core.add_viol(acc, 'program assembles without compression (%d bytes) but fails with it: %s: %s (line %s: %r)' % (
+            len(u.out), c.exc['type'], c.exc['msg'], c.exc.get('number'), lines[c.exc['number'] - 1] if c.exc.get('number') and 0 < c.exc['number'] <= len(lines) else None),
+            case, {'lines': lines})
+    if case['idx'] % 101 == 0:
+        core.add_sample(acc, {'kind': 'spelled', 'program': lines[:10], 'uncompressed_bytes': len(u.out), 'compressed': len(c.out) if c.ok else c.exc})
+
+
 def run_case(asm, acc, case):
     if case['kind'] in ('pinned', 'oddpin'):
         return run_pinned(asm, acc, case)
+    if case['kind'] == 'spelled':
+        return run_spelled(asm, acc, case)
     if case['kind'] == 'pyname':
         return run_pyname(asm, acc, case)
     items = make(case, asm)
@@ -425,8 +514,8 @@ def run_shard(sh, deadline):
 
 
 def plan(tier, seed):
-    n = ({'rand': 3000, 'edge': 2500, 'shift': 500, 'dist': 1200, 'abs': 1500, 'pinned': 420, 'oddpin': 48, 'pyname': 256} if tier == 'quick' else
-         {'rand': 120000, 'edge': 70000, 'shift': 10000, 'dist': 24000, 'abs': 60000, 'pinned': 2520, 'oddpin': 48, 'pyname': 256})
+    n = ({'rand': 3000, 'edge': 2500, 'shift': 500, 'dist': 1200, 'abs': 1500, 'pinned': 420, 'oddpin': 48, 'pyname': 288, 'spelled': 1500} if tier == 'quick' else
+         {'rand': 120000, 'edge': 70000, 'shift': 10000, 'dist': 24000, 'abs': 60000, 'pinned': 2520, 'oddpin': 48, 'pyname': 288, 'spelled': 60000})
     cases = [{'kind': k, 'seed': seed, 'idx': i} for k, cnt in n.items() for i in range(cnt)]
     nsh = 64 if tier == 'quick' else 512
     shards = [{'cases': cases[i::nsh]} for i in range(nsh)]
